@@ -259,6 +259,9 @@ class Harness:
                 continue
             if k.startswith("held-") and self.held is None:
                 continue
+            if k.startswith("held-") and self.mirror and self.scopes and self.held is not self.base.get("PATH"):
+                continue  # the detached-reference defect is reported in its scope-free form; inside a scope
+                # the mirror check is suspended and the damage would surface later under another key
             if k == "held-append" and len(self.held) >= 3:
                 continue
             if k == "held-clear" and not self.held:
